@@ -19,3 +19,19 @@ claim('C12', 'deductive VCs (pyvc): Filter.matches vs glob spec, parse_path loop
 claim('C14', 'deductive VCs (pyvc): zero-mutation frame under dry_run, per-entry print/remove correspondence, parse_reply + exhaustive code-point enumeration, Guard/EmptyAction',
       'under --dry-run no mutating fs event exists on any path and one "would remove p" line is printed per path the purge would remove; the emptier is reached only after a reply beginning with y/Y',
       TB + '; the non-interference of removals with later yields of the same generator is argued, not mechanised', 'DESIGN.md section 4 C14')
+
+claim('C06', 'deductive VCs (pyvc): Restorer.restore_trashed_file over every lstat kind of the destination and every fault outcome; restore pipeline',
+      'without --overwrite, any existing destination (lkind != Absent: file, dir, link, dangling link) means IOError before any fs event; with it the move targets the original location; a refused entry ends the run with exit 1 and a stderr message, later entries untouched',
+      TB + '; rename(2) replaces a non-directory destination (axiom about the OS); no interference between the probe and the move', 'DESIGN.md section 4 C06')
+claim('C13', 'deductive VCs (pyvc): scope predicate vs component-boundary spec, per-part grammar with loop cut, restore pipeline; bounded stand-in for whole-reply composition',
+      'scope predicate proved for all path pairs; each comma-separated part denotes a dashless integer or an inclusive a-b range (any number of parts); pipeline: numbered listing, validation before any restore, restored == denoted, empty reply/EOF restore nothing, invalid reply exits non-zero',
+      TB + '; BOUNDED (not proof): the pipeline VC covers replies of <= 2 parts, ranges of <= 2 elements, lists of 0 or 2 entries; int() is an uninterpreted int_ok/int_val pair', 'DESIGN.md section 4 C13')
+claim('C15', 'deductive VCs (pyvc): per-entry ordering monitors checked on every path prefix of restore / empty / rm',
+      'on every path of the three commands the info file is removed only after the payload removal or move was issued, and nothing but that entry is touched; every path prefix is itself a checked path, which is the kill-at-any-instant quantifier at the granularity of modelled events',
+      TB + '; primitives are atomic w.r.t. a kill; kills inside shutil.rmtree / shutil.move follow the phase model', 'DESIGN.md section 4 C15')
+claim('C19', 'deductive VCs (pyvc): per-entry nothrow + frame for the four readers (loop cut: arbitrary entry of an arbitrary listing), total sort key',
+      'for every content and read outcome each reader handles an entry without raising, emits at most one message about it, and its treatment of an entry depends on that entry alone; sorting never raises for any mix of dated/undated entries',
+      TB, 'DESIGN.md section 4 C19')
+claim('C20', 'deductive VCs (pyvc): four readers proved against the same spec terms; scanner vs restore trash-dir/volume pairing; known finding for the home volume',
+      'list, restore, rm and empty are each proved to compute join(V, unquote(first Path line)) / first DeletionDate line, and V is proved per kind of trash directory for the scanner and for restore; they agree except for the home trash on its own volume (KNOWN-FINDING)',
+      TB + '; both commands are assumed to be given the same volume list', 'DESIGN.md section 4 C20')
